@@ -379,7 +379,7 @@ func RunWorker(spec *Spec, tier string, seed int64, worker, nworkers int, from, 
 	}
 	hang := spec.HangSeconds
 	if hang == 0 {
-		hang = 120
+		hang = 900 // generous: the machine may be heavily loaded; a hang is only a verdict for C11/C12
 	}
 	// hang monitor: a case that runs longer than the limit ends the worker with exit 3;
 	// the parent attributes it to the last logged case.
